@@ -319,6 +319,12 @@ void op_allocfail(const Case& c, TaskCtx& t, Outcome& o) {
     sim_env_reset(&e, 0);
     e.fail_at[0] = k1;
     e.fail_at[1] = k2;
+    // what the code reads after a failed allocation is often uninitialised: make it a function of the plan, not of the
+    // worker's earlier history (fresh blocks and the stack below the call get a fixed pattern)
+    std::string hp = c.s("f.heap", "a5");
+    e.heap_fill = hp == "zero" ? HEAP_ZERO : hp == "ff" ? HEAP_FF : hp == "junk" ? HEAP_JUNK : HEAP_A5;
+    e.scribble_free = 1;
+    stack_poison(hp == "zero" ? 0x00 : hp == "ff" ? 0xFF : 0xA5, 256 * 1024);
     int rc = call(e);
     if (e.n_alloc_failed == 0)
       _exit(13); // the failing index was not reached (call took another path)
@@ -343,10 +349,14 @@ void op_allocfail(const Case& c, TaskCtx& t, Outcome& o) {
     cls = ec == 10 ? "error_return" : ec == 11 ? "correct_success" : ec == 12 ? "WRONG_SUCCESS" : ec == 13 ? "not_reached" : "abnormal_exit";
   } else
     cls = "abnormal_termination";
+  // Which of the non-verdict classes (error return, abnormal termination, correct success) a faulted call ends in can
+  // depend on what uninitialised memory it reads afterwards, i.e. on heap layout and therefore on the worker's earlier
+  // history; the classes are counted in the statistics but only the verdict enters the event log.
+  std::string verdict = cls == "WRONG_SUCCESS" ? "WRONG_SUCCESS" : "no wrong success";
   Fnv f;
-  f.str(cls);
+  f.str(verdict);
   o.digest = f.h;
-  o.summary = target + " alloc " + std::to_string(k1) + (k2 >= 0 ? "+" + std::to_string(k2) : "") + "/" + std::to_string(ap.nalloc) + " -> " + cls;
+  o.summary = target + " alloc " + std::to_string(k1) + (k2 >= 0 ? "+" + std::to_string(k2) : "") + "/" + std::to_string(ap.nalloc) + " -> " + verdict;
   if (G.solo_pass)
     return; // the solo execution only supplies the result; oracle clauses are evaluated in the history run
   if (t.stats) {
